@@ -665,10 +665,10 @@ func init() {
 		oracles:      []Oracle{oracleCrash, oracleCoverageC01},
 		chunks:       map[string]int{"quick": 8, "thorough": 16},
 		nGenQuick:    24,
-		nGenThorough: 600,
+		nGenThorough: 120,
 		rawPos:       true,
-		prefixStep:   map[string]int{"quick": 9, "thorough": 1},
-		tokStep:      map[string]int{"quick": 11, "thorough": 1},
+		prefixStep:   map[string]int{"quick": 9, "thorough": 2},
+		tokStep:      map[string]int{"quick": 11, "thorough": 3},
 	})
 	Register(&StreamProp{
 		id: "C06",
@@ -680,9 +680,9 @@ func init() {
 		kinds:        []core.QKind{core.QCompletion, core.QCompletionPrefill},
 		chunks:       map[string]int{"quick": 8, "thorough": 16},
 		nGenQuick:    16,
-		nGenThorough: 400,
-		prefixStep:   map[string]int{"quick": 11, "thorough": 1},
-		tokStep:      map[string]int{"quick": 13, "thorough": 2},
+		nGenThorough: 100,
+		prefixStep:   map[string]int{"quick": 11, "thorough": 2},
+		tokStep:      map[string]int{"quick": 13, "thorough": 3},
 	})
 	c12stream := &StreamProp{
 		id: "C12",
@@ -694,9 +694,9 @@ func init() {
 		kinds:        []core.QKind{core.QHover},
 		chunks:       map[string]int{"quick": 8, "thorough": 16},
 		nGenQuick:    24,
-		nGenThorough: 400,
-		prefixStep:   map[string]int{"quick": 7, "thorough": 1},
-		tokStep:      map[string]int{"quick": 9, "thorough": 2},
+		nGenThorough: 100,
+		prefixStep:   map[string]int{"quick": 7, "thorough": 2},
+		tokStep:      map[string]int{"quick": 9, "thorough": 3},
 	}
 	Register(&Composite{id: "C12", meta: c12stream.meta, Parts: []Prop{c12stream, c12items{}}, Names: []string{"stream", "object-items"}})
 	Register(&StreamProp{
@@ -709,7 +709,7 @@ func init() {
 		kinds:        []core.QKind{core.QSemTokens},
 		chunks:       map[string]int{"quick": 8, "thorough": 16},
 		nGenQuick:    24,
-		nGenThorough: 400,
+		nGenThorough: 120,
 		prefixStep:   map[string]int{"quick": 3, "thorough": 1},
 		tokStep:      map[string]int{"quick": 3, "thorough": 1},
 	})
@@ -725,8 +725,8 @@ func init() {
 		oracles:      []Oracle{oracleRanges},
 		chunks:       map[string]int{"quick": 8, "thorough": 16},
 		nGenQuick:    16,
-		nGenThorough: 400,
-		prefixStep:   map[string]int{"quick": 9, "thorough": 1},
-		tokStep:      map[string]int{"quick": 11, "thorough": 2},
+		nGenThorough: 100,
+		prefixStep:   map[string]int{"quick": 9, "thorough": 2},
+		tokStep:      map[string]int{"quick": 11, "thorough": 3},
 	})
 }
